@@ -455,6 +455,31 @@ Proof.
   - rewrite reserved_ids_none by auto. constructor.
 Qed.
 
+
+(* ---------------------------------------------------------------------- *)
+(* the synchronisation is ONE critical section (counter read, collective,
+   write-back under the same hold of taskpool_array_lock): no reservation of
+   the process can fall between the read and the write-back, the maximum that
+   is written back is at least the current counter, and the counter of a
+   process never decreases.  A reservation attempted by another thread during
+   the collective is therefore an event before or after SyncAll, and
+   reserved_ids_distinct covers both orders. *)
+Theorem sync_never_lowers_a_counter : forall ss r s s', nth_error ss r = Some s -> dead s = false ->
+  nth_error (fst (sys_step ss SyncAll)) r = Some s' -> pos s <= pos s' /\ pos s' = max_pos ss.
+Proof.
+  intros ss r s s' Hn Hd Hn'. cbn [sys_step fst] in Hn'. rewrite nth_error_map, Hn in Hn'. inv Hn'.
+  destruct (sync_pos s (max_pos ss) Hd) as [-> _]. split; auto. eapply max_pos_ge; eauto.
+Qed.
+
+(* why it has to be one: writing back a maximum computed from a counter that
+   was read before a reservation ([Sync m] with m below the current counter)
+   makes the next reservation hand out the same identifier again *)
+Lemma stale_write_back_repeats_an_identifier :
+  let s1 := fst (step init (Reserve 1)) in
+  let s2 := fst (step s1 (Sync 0)) in
+  snd (step init (Reserve 1)) = RId 1 /\ snd (step s2 (Reserve 2)) = RId 1.
+Proof. vm_compute. auto. Qed.
+
 (* identifier 0 is never handed out and is outside the property; the code
    does not tolerate its lookup on a fresh table (NULL array, 0 <= pos) and
    reads a slot nobody wrote afterwards *)
